@@ -154,8 +154,9 @@ theorem coherent_inv {d : Dist α} (hr : Reachable d) : Coherent d :=
   ((fresh_iff d).mp (reachable_inv hr)).2
 
 /-- **observational_equality** — a reachable object is equal, as a whole record, to the object freshly
-constructed from its current parameters; hence every function of the record (pdf, pmf, mean, var) and every
-function of the record and a generator state (the sample stream from any seed) coincide. -/
+constructed from its current parameters (first conjunct: this is the result, proved by induction over histories);
+hence — by congruence, second conjunct — every function of the record (pdf, pmf, mean, var) and every function of the
+record and a generator state (the sample stream from any seed) coincide. -/
 theorem observational_equality {d : Dist α} (hr : Reachable d) :
     newD d.kind d.params = some d ∧
     ∀ {β : Type} (f : Dist α → β), ∀ tw, newD d.kind d.params = some tw → f d = f tw := by
@@ -166,10 +167,12 @@ theorem observational_equality {d : Dist α} (hr : Reachable d) :
   cases htw
   rfl
 
-/-- The sample stream: for *any* sampler that reads the record and the generator state (the model of
-`Distribution::sample`; `Model/C18Obs.lean` has the concrete one at `Float`), the `n` draws taken from generator
-state `g` on a reachable object are the draws its freshly constructed twin gives from the same state.  No other
-argument exists: other distribution objects cannot influence the stream. -/
+/-- The sample stream: for *any* sampler that reads the record and the generator state, the `n` draws taken from
+generator state `g` on a reachable object are the draws its freshly constructed twin gives from the same state.
+This is a congruence corollary of the record equality (its content is `reachable_inv`); it is instantiated with the
+modelled sampler `sampleP` of `Model/C18Obs.lean` in `Props/C18Review.lean` (`modelled_observations_eq`).  That other
+distribution objects cannot influence the stream is true of the model by construction of its types (a sampler has no
+other argument) and is not a theorem. -/
 theorem stream_equality {d : Dist α} (hr : Reachable d) {β : Type}
     (sample : Dist α → Cv.Rng → Option (β × Cv.Rng)) (n : Nat) (g : Cv.Rng) :
     ∀ tw, newD d.kind d.params = some tw →
